@@ -283,10 +283,10 @@ func finishRun(prop, tier string, seed int64, reps []*Report, verifDir, evidence
 			"fixed_findings":      fixed,
 			"undecided":           undecided,
 			"checker_cmd":         cmdline,
-			"trusted_base":        info.Trusted,
+			"trusted_base":        append([]string{}, info.Trusted...),
 			"exhaustive":          true,
 		},
-		"assumptions": info.Assumptions,
+		"assumptions": append([]string{"the library compiles in the analysed configuration; standard-library contracts as listed in trusted_base"}, info.Assumptions...),
 		"wall_s":      wall,
 		"violations":  violations,
 	}
